@@ -35,7 +35,7 @@ LEVEL_TEXT = ("Lean 4 theorems for every sequence of SETTINGS changes (up and do
 LEVEL_NOTE = ("Partial: the model covers the bookkeeping (slots, routing); the interplay with locks and the event loop is explored, not proved: random "
               "schedules under asyncio and trio where the harness chooses every server frame and every completion. Cancellation while a request is "
               "still being *sent* is outside this property's quantifier (it can drop frames of other streams; see DESIGN §7).")
-TECHNIQUE = "Lean 4 proof (invariant by induction over operations, routing lemma) + Tie A constants + lock-step differential + interactive h2 exploration"
+TECHNIQUE = "Lean 4 proof (invariant by induction over operations, routing lemma) + life-cycle invariant over the translated gate / _response_closed (in use => neither idle nor expiring) + Tie A constants + lock-step differentials (slots, life-cycle event log) + interactive h2 exploration"
 DESIGN_REF = "§5 C12"
 
 PROFILES = {
